@@ -734,6 +734,59 @@ func (c *c10Ctx) session(caseID string, rng *rand.Rand) int64 {
 		short := s.reqID[:len(s.reqID)-1]
 		rej("nts.ProcessResponse", "outstanding id is a prefix of the response id", func(st *string) c10Res { return c10Client(s.resp, s.s2c, short, st) })
 	}
+	// extension fields appended after the authenticator are outside what it covers: a genuine
+	// response to another request replayed with the outstanding request's identifier appended
+	// must still be rejected, and so must a request whose cookie is swapped in after the authenticator
+	{
+		ext := func(t uint16, body []byte) []byte {
+			b := make([]byte, 4+len(body))
+			b[0], b[1] = byte(t>>8), byte(t)
+			b[2], b[3] = byte(len(b)>>8), byte(len(b))
+			copy(b[4:], body)
+			return b
+		}
+		replay := append(append([]byte{}, respOther...), ext(0x0104, s.reqID)...)
+		rej("nts.ProcessResponse", "response to another request with the outstanding unique id appended after the authenticator", func(st *string) c10Res { return client(replay, st) })
+		replay2 := append(append([]byte{}, t.resp...), ext(0x0104, s.reqID)...)
+		rej("nts.ProcessResponse", "response of another session with the outstanding unique id appended after the authenticator", func(st *string) c10Res { return client(replay2, st) })
+	}
+
+	// an authenticator without room for the 16-byte AES-SIV tag cannot verify anything: forged
+	// packets that copy the clear-text fields (header, unique id, cookie) and carry an authenticator
+	// with an empty or short ciphertext must be rejected on both sides
+	{
+		forge := func(orig []byte, ctLen int) []byte {
+			// everything before the authenticator field of the original, then a key-less authenticator
+			pos := 48
+			for pos+4 <= len(orig) {
+				t := int(orig[pos])<<8 | int(orig[pos+1])
+				l := int(orig[pos+2])<<8 | int(orig[pos+3])
+				if t == 0x0404 || l < 4 {
+					break
+				}
+				pos += l
+			}
+			b := append([]byte{}, orig[:pos]...)
+			body := make([]byte, 4+16+((ctLen+3)&^3))
+			body[1] = 16
+			body[2], body[3] = byte(ctLen>>8), byte(ctLen)
+			copy(body[4:], c10Rand(rng, 16))
+			copy(body[20:], c10Rand(rng, ctLen))
+			for len(body) < 24 {
+				body = append(body, 0) // the decoder only looks at fields of at least 28 bytes
+			}
+			f := make([]byte, 4+len(body))
+			f[0], f[1] = 0x04, 0x04
+			f[2], f[3] = byte(len(f)>>8), byte(len(f))
+			copy(f[4:], body)
+			return append(b, f...)
+		}
+		for _, l := range []int{0, 1, 8, 15} {
+			fr, fq := forge(s.resp, l), forge(s.req, l)
+			rej("nts.ProcessResponse", "forged response whose authenticator has no room for a tag", func(st *string) c10Res { return client(fr, st) })
+			rej("nts.ProcessRequest", "forged request whose authenticator has no room for a tag", func(st *string) c10Res { return server(fq, st) })
+		}
+	}
 
 	// every single-bit and single-field mutation
 	if okReq {
@@ -767,6 +820,21 @@ func (c *c10Ctx) cookieCase(caseID string, rng *rand.Rand) int64 {
 		r.Violation("ntske.EncryptedServerCookie.Decrypt|wrong-value:opened cookie differs from the sealed (algo,S2C,C2S)|cookie", caseID, w)
 	}
 	r.Class("nts:cookie-opened-exact")
+	// the opened keys belong to this cookie for as long as the caller holds them: opening other
+	// cookies afterwards (as concurrent listeners do) must not change them
+	{
+		held := res.cookie
+		for k := 0; k < 3; k++ {
+			o2 := c10SealCookie(serverKey, keyID, c10Rand(rng, 32), c10Rand(rng, 32))
+			_ = c10Guard(func(st *string) c10Res { return open(o2, st) })
+		}
+		n += 3
+		if !bytes.Equal(held.S2C, s2c) || !bytes.Equal(held.C2S, c2s) {
+			r.Violation("ntske.EncryptedServerCookie.Decrypt|wrong-value:keys of an opened cookie changed when other cookies were opened|cookie", caseID, w)
+		} else {
+			r.Class("nts:opened-keys-stable-across-later-openings")
+		}
+	}
 	n += 2
 	c.expectReject("ntske.EncryptedServerCookie.Decrypt", "cookie opened under a fresh random key", caseID,
 		c10Guard(func(st *string) c10Res { return c10Cookie(cookie, c10Provider{keyID: fresh}, st) }), w)
